@@ -34,13 +34,13 @@ def tables(ctx):
     ck, facts, O = ctx.check, ctx.facts, ctx.oracle
     regs = O["registers"]
     try:
-        r2q = S.static_elements(facts, REGS + "REGISTER_TO_QWORD")
+        r2q = S.static_items(facts, REGS + "REGISTER_TO_QWORD")
         try:
-            high = S.static_elements(facts, REGS + "HIGHER_BYTE_REGISTERS")
+            high = S.static_items(facts, REGS + "HIGHER_BYTE_REGISTERS")
         except KeyError:
             high = None  # the high-byte test need not be a table; C07.bits decides the aliasing per view either way
-        gprs = S.static_elements(facts, REGS + "GENERAL_PURPOSE_REGISTERS")
-        xmms = S.static_elements(facts, REGS + "XMM_REGISTERS")
+        gprs = S.static_items(facts, REGS + "GENERAL_PURPOSE_REGISTERS")
+        xmms = S.static_items(facts, REGS + "XMM_REGISTERS")
     except KeyError as e:
         ck.violation("C07.tables", "lazy_static tables", "cannot evaluate: %s" % e)
         return None
@@ -132,8 +132,12 @@ def tables(ctx):
     return {"r2q": table, "high": set(hs or ()), "names": names, "partial": partial}
 
 
+_static_cache = {}
+
+
 def make_intercept(ctx, tabs):
     facts, O = ctx.facts, ctx.oracle
+    _static_cache.clear()
     pre = "<" + REGS
 
     def icpt(I, path, frame, t, name, args):
@@ -148,6 +152,73 @@ def make_intercept(ctx, tabs):
                 if key:
                     return [(A.INT(1 if O["registers"][rn][key] else 0, 8), path)]
         meth = name.rsplit("::", 1)[1]
+        if meth in ("deref", "as_slice", "as_ref", "borrow") and len(args) == 1 and args[0][0] == "ref" and args[0][1][0][0] == "D" \
+                and not args[0][1][1] and args[0][1][0][1][0] == "static":
+            return [(args[0][1][0][1], path)]  # a view of the same table
+        # any other table of the register module (a Vec / HashSet / HashMap static): membership and lookup are answered
+        # from its evaluated elements
+        if meth in ("contains", "contains_key", "get") and len(args) == 2:
+            rv = args[0]
+            for _ in range(4):
+                if rv[0] == "ref" and rv[1][0][0] == "D" and not rv[1][1]:
+                    rv = rv[1][0][1]
+                elif rv[0] == "ref":
+                    rv = I._deref_all(path, rv)
+                elif rv[0] in ("deref", "w") and isinstance(rv[1], tuple):
+                    rv = rv[1]
+                else:
+                    break
+            if rv[0] == "static" and meth == "contains" and rv[1] == "HIGHER_BYTE_REGISTERS":
+                rv = ("none",)
+            if rv[0] == "static" and rv[1] not in ("REGISTER_TO_QWORD", "HIGHER_BYTE_REGISTERS"):
+                try:
+                    items = _static_cache.setdefault(rv[1], S.static_items(facts, REGS + rv[1]))
+                except KeyError:
+                    items = None
+                kn = S.sreg_name(facts, I._deref_all(path, args[1]))
+                if items is not None and kn is not None:
+                    if meth in ("contains", "contains_key"):
+                        keys = [S.sreg_name(facts, x[3][0] if (x[0] == "agg" and x[1] == "tuple") else x) for x in items]
+                        return [(A.INT(1 if kn in keys else 0, 8), path)]
+        # the entry API on the register file: Occupied and Vacant both stand for the one abstract slot
+        if "hash_map::OccupiedEntry" in name or "hash_map::VacantEntry" in name or "hash_map::Entry" in name:
+            e_ = I._deref_all(path, args[0]) if args else None
+            if e_ is not None and e_[0] == "agg" and e_[1] == "adt:std::collections::hash_map::Entry" and e_[3]:
+                e_ = e_[3][0]
+            if e_ is not None and e_[0] == "rfentry":
+                root = e_[1]
+                fld_, kn_ = root[1][1], root[1][2]
+                if meth == "insert" and len(args) == 2:
+                    oldv = path.store[root]
+                    path.store[root] = args[1]
+                    path.events.append(("rf_insert", fld_, kn_, args[1]))
+                    return [(oldv if "Occupied" in name else ("ref", (root, ()), True), path)]
+                if meth in ("get", "get_mut", "into_mut"):
+                    path.events.append(("rf_get", fld_, kn_))
+                    return [(("ref", (root, ()), meth != "get"), path)]
+                if meth in ("or_insert", "or_default", "or_insert_with", "key"):
+                    return None
+        if "HashMap" in name and meth == "entry" and len(args) == 2 and args[0][0] == "ref" and args[0][1][0][0] == "H":
+            fld = [p[2] for p in args[0][1][1] if isinstance(p, tuple) and p[0] == "f"][-1:]
+            if fld in (["registers"], ["xmm_registers"]):
+                kn = S.sreg_name(facts, I._deref_all(path, args[1]))
+                root = ("L", ("rfslot", fld[0], kn), 0)
+                if root not in path.store:
+                    path.store[root] = A.W(("old", fld[0], kn, 0), 128 if fld[0][0] == "x" else 64)
+                ENT = "adt:std::collections::hash_map::Entry"
+                p2 = path.copy()
+                return [(("agg", ENT, 0, (("rfentry", root),)), path), (("agg", ENT, 1, (("rfentry", root),)), p2)]
+        if "HashMap" in name and meth in ("index", "index_mut") and "ops::Index" in name and len(args) == 2:
+            # map[&key]: the same lookup as get(&key).unwrap() (a missing key is C07.tables' obligation)
+            sub = icpt(I, path, frame, t, "std::collections::HashMap::<K, V, S, A>::" + ("get" if meth == "index" else "get_mut"), args)
+            if sub is not None:
+                outs_ = []
+                for v_, p_ in sub:
+                    if v_ == A.NONE:
+                        outs_.append(("panic", "X", "map index with a missing key", p_))
+                    else:
+                        outs_.append((v_[3][0], p_))
+                return outs_
         if ("HashMap" in name or "HashSet" in name) and meth in ("get", "get_mut", "contains", "insert", "contains_key"):
             recv = args[0]
             if recv[0] == "ref":
